@@ -10,8 +10,9 @@ Engine A.  Reference: mc.models.listmodel.ListModel (a plain list of [spelling, 
   order) is closed on the model by BFS to fixpoint; every abstract state is rebuilt on a real object by
   replaying the BFS-shortest history reaching it, every operation is applied to it and the successor's
   complete projection must be the model's successor (so the implementation's abstract graph is verified
-  edge by edge to be the model's graph), and a depth-2 tree is run from every abstract state, this time
-  with the complete projection observed after every step.
+  edge by edge to be the model's graph), and a depth-2 tree is run from every abstract state: as pure
+  histories like tree mode (both tiers) and, in the thorough tier, once more with the complete projection
+  also read between the two operations.
 
 After every checked step: exception class (KeyError for missing keys, ValueError for self-relative
 re-ordering - object unchanged in both cases), result of get / contains / len / iteration, list(d),
@@ -33,6 +34,10 @@ BUDGET = {"quick": 240, "thorough": 3000}
 
 TREE_DEPTH = {"quick": 2, "thorough": 3}
 GRAPH_TREE_DEPTH = 2
+# how the depth-2 trees from the abstract states are observed: "end" = nothing is read before the end of a
+# history (every prefix is a history of its own, so every step is still observed); "every" = the complete
+# projection is also read between the two operations
+GRAPH_OBSERVE = {"quick": ["end"], "thorough": ["end", "every"]}
 ITER_BOUND = 16          # a mapping over 3 case classes never has more than 3 keys
 
 
@@ -70,7 +75,7 @@ def bounds(tier):
                                 "after (25 pairs)", "sort", "copy", "reparse"],
             "initial_states": ["empty", "dict-initialised (2 keys)", "parsed from text (3 keys)"],
             "tree_depth": TREE_DEPTH[tier], "graph": "fixpoint of the abstract state space",
-            "graph_tree_depth": GRAPH_TREE_DEPTH}
+            "graph_tree_depth": GRAPH_TREE_DEPTH, "graph_tree_observation": GRAPH_OBSERVE[tier]}
 
 
 def assumptions():
@@ -331,22 +336,37 @@ def abstract_states(keys, vals):
 
 
 def units(tier, seed):
+    """Every unit covers the histories of exactly one length (``level``) from one start state, so that the
+    canonical order of units is simplest-first: shorter histories before longer ones, initial paragraphs before
+    abstract states reached later."""
     keys, vals = alphabet(seed)
     nops = len(operations(keys, vals))
-    out = []
-    for i in range(3):
-        for f in range(nops):
-            out.append({"mode": "tree", "init": i, "first": f})
     states, _depth = abstract_states(keys, vals)
-    for n, (c, i, h) in enumerate(states):
-        out.append({"mode": "graph", "state": n, "init": i, "rep": list(h)})
+    out = []
+
+    def tree(level):
+        for i in range(3):
+            for f in ([None] if level == 1 else range(nops)):
+                out.append({"mode": "tree", "init": i, "prefix": [], "first": f, "level": level, "observe": "end"})
+
+    def graph(level, observe):
+        for n, (c, i, h) in enumerate(states):
+            out.append({"mode": "graph", "state": n, "init": i, "prefix": list(h), "first": None, "level": level,
+                        "observe": observe})
+    tree(1)
+    graph(1, "end")
+    tree(2)
+    graph(2, "end")
+    for level in range(3, TREE_DEPTH[tier] + 1):
+        tree(level)
+    for observe in GRAPH_OBSERVE[tier][1:]:
+        graph(2, observe)
     return out
 
 
 def unit_cost(u, tier):
-    if u["mode"] == "graph":
-        return 90 ** GRAPH_TREE_DEPTH * (3 + len(u["rep"]))
-    return 90 ** (TREE_DEPTH[tier] - 1) * 3
+    n = 90 ** u["level"] if u["first"] is None else 90 ** (u["level"] - 1)
+    return n * (3 + len(u["prefix"]) + u["level"] + (2 if u["observe"] == "every" else 0))
 
 
 def run_unit(u, tier, seed):
@@ -354,21 +374,17 @@ def run_unit(u, tier, seed):
     keys, vals = alphabet(seed)
     ops = operations(keys, vals)
     init = inits(keys, vals)[u["init"]]
-    if u["mode"] == "tree":
-        depth, prefix, observe, firsts = TREE_DEPTH[tier], [], "end", [ops[u["first"]]]
-    else:
-        depth, prefix, observe, firsts = GRAPH_TREE_DEPTH, u["rep"], "every", ops
-    part.max_depth = len(prefix) + depth
-    prefix = _ops(prefix)
-    base = {"keys": keys, "init": init, "prefix": prefix, "observe": observe}
-
-    every = observe == "every"
+    prefix = _ops(u["prefix"])
+    level = u["level"]
+    every = u["observe"] == "every"
+    firsts = ops if u["first"] is None else [ops[u["first"]]]
+    part.max_depth = len(prefix) + level
+    base = {"keys": keys, "init": init, "prefix": prefix, "observe": u["observe"]}
 
     def run(hist):
-        case = None
         info = {}
         bad = execute(keys, init, prefix, hist, every, info)
-        part.transitions += 1
+        part.transitions += 1 if hist else 0
         part.traces += 1
         part.evaluations += 1
         part.extra["operation applications on real objects, replayed prefixes included"] += len(prefix) + len(hist)
@@ -382,24 +398,23 @@ def run_unit(u, tier, seed):
             part.nontrivial += bool(info["nontrivial"])
         return True
 
-    # the start state itself (tree: once per initial paragraph; graph: every abstract state)
-    if u["mode"] == "graph" or u["first"] == 0:
+    if level == 1:
+        # the start state itself: an initial paragraph, or an abstract state rebuilt by its shortest history
         ok = run([])
         if u["mode"] == "graph":
             part.states += 1
             part.extra["abstract states rebuilt on a real object"] += 1
-            if not ok:
-                return part
+        if not ok:
+            return part
 
     def rec(hist):
         for op in (firsts if not hist else ops):
             h2 = hist + [op]
-            if not run(h2):
-                continue
-            if len(h2) < depth:
-                rec(h2)
-            elif op == ops[-1] and len(part.samples) < 2:
-                part.sample(dict(base, history=list(h2)))
+            if len(h2) == level:
+                if run(h2) and op == ops[-1] and len(part.samples) < 2:
+                    part.sample(dict(base, history=list(h2)))
+            elif not execute(keys, init, prefix, h2, every):
+                rec(h2)         # a failing proper prefix is reported by the unit of its own length and not extended
     rec([])
     return part
 
